@@ -136,6 +136,38 @@ Mixed(k) == [name |-> S_TOP, cprops |-> PropsV(k + 1),
              refs |-> <<RefE(S_SUB, "cell", FALSE, 1024, 90 * 64, <<0, 0>>, RepV(k + 3), PR1),
                         RefE(S_LEAF, "cell", TRUE, 1024, 0, <<5, 5>>, NoRep, PR0),
                         RefE(S_NOPE, "name", FALSE, 1024, 0, <<9, 9>>, NoRep, PR0)>>]
+\* near misses: a compact-trapezoid shape with ONE vertex moved by two grid units along an axis.
+\* Most are no compact trapezoid any more (some keep the bounding box of one, e.g. the type-22
+\* triangle whose apex leaves the middle), so shape detection has to fall back to a general record;
+\* all near misses of one type share a cell
+Dirs4 == << <<2, 0>>, <<-2, 0>>, <<0, 2>>, <<0, -2>> >>
+NearMiss(t, w, h) ==
+    LET vs == CTrapVertices(t, w, h) IN
+    [n \in 1..(4 * Len(vs)) |->
+        LET i == ((n - 1) \div 4) + 1
+            d == Dirs4[((n - 1) % 4) + 1]
+        IN  [vs EXCEPT ![i] = <<vs[i][1] + d[1], vs[i][2] + d[2]>>]]
+\* the round-trip properties are stated for simple polygons (and OASIS has no other kind): keep the
+\* near misses with distinct vertices whose edges meet only at shared end points
+Orient(a, b, c) == (b[1] - a[1]) * (c[2] - a[2]) - (b[2] - a[2]) * (c[1] - a[1])
+OnSeg(a, b, c) == /\ Orient(a, b, c) = 0
+                  /\ c[1] >= (IF a[1] < b[1] THEN a[1] ELSE b[1]) /\ c[1] <= (IF a[1] < b[1] THEN b[1] ELSE a[1])
+                  /\ c[2] >= (IF a[2] < b[2] THEN a[2] ELSE b[2]) /\ c[2] <= (IF a[2] < b[2] THEN b[2] ELSE a[2])
+SegsMeet(a, b, c, d) ==
+    LET Sg(x) == IF x > 0 THEN 1 ELSE IF x < 0 THEN -1 ELSE 0 IN
+    \/ (Sg(Orient(a, b, c)) * Sg(Orient(a, b, d)) < 0 /\ Sg(Orient(c, d, a)) * Sg(Orient(c, d, b)) < 0)
+    \/ OnSeg(a, b, c) \/ OnSeg(a, b, d) \/ OnSeg(c, d, a) \/ OnSeg(c, d, b)
+SimplePoly(vs) ==
+    LET n == Len(vs)
+        V(i) == vs[((i - 1) % n) + 1]
+    IN  /\ n >= 3
+        /\ \A i, j \in 1..n : i # j => vs[i] # vs[j]
+        /\ \A i \in 1..n : Orient(V(i), V(i + 1), V(i + 2)) # 0
+        /\ \A i, j \in 1..n : (j > i + 1 /\ ~(i = 1 /\ j = n)) => ~SegsMeet(V(i), V(i + 1), V(j), V(j + 1))
+NearCell(t) == LET seq == SelectSeq(NearMiss(t, 30, 12) \o NearMiss(t, 20, 20), SimplePoly) IN
+               [Empty(S_TOP) EXCEPT !.polys = [i \in DOMAIN seq |->
+                   PolyE(LayerV(i), t, Q4(Order(seq[i], (i + t) % 6), 5, -9, 0), NoRep, PR0)]]
+NearLibs == {AL(<<NearCell(t), Sub, Leaf>>, PR0) : t \in 0..25}
 MixedLib(k) == AL(<<Mixed(k), Sub, Leaf, Empty(<<69>>)>>, PropsV(k))
 
 \* ---- options ------------------------------------------------------------------------------------
@@ -147,8 +179,9 @@ Singles(k) == {Lib1("polys", e) : e \in CTrapPolys(k) \cup TrapPolys(k) \cup Rec
               \cup {Lib1("refs", e) : e \in RefsV(k)}
               \cup {AL(<<Circle(q), Sub, Leaf>>, PR0) : q \in 0..3}
 \* (thorough: 7 of the 14 palette rotations, chosen by the seed; every rotation is reachable by varying it)
-Libs == IF Depth = "thorough" THEN UNION {Singles((Seed + 2 * k) % 14) : k \in 0..6} \cup {MixedLib(k) : k \in 0..25}
-        ELSE Singles(Seed % 14) \cup {MixedLib(k) : k \in {Seed % 26, (Seed + 9) % 26, (Seed + 17) % 26}}
+Libs == (IF Depth = "thorough" THEN UNION {Singles((Seed + 2 * k) % 14) : k \in 0..6} \cup {MixedLib(k) : k \in 0..25}
+         ELSE Singles(Seed % 14) \cup {MixedLib(k) : k \in {Seed % 26, (Seed + 9) % 26, (Seed + 17) % 26}})
+        \cup NearLibs
 \* every library with detection on (shape records) and once with its rotating option set;
 \* the mixed library sweeps all 256 flag sets x levels x tolerances over the run
 Sweep == IF Depth = "thorough"
